@@ -14,11 +14,41 @@ From Eino Require Import Base.Util Model.StateLock Model.StateLockLTS Model.Stat
 From Eino Require Import Proofs.StateTask.
 From Eino Require Gen.StateTask.
 
-Theorem gen_task_programs_agree :
-  Gen.StateTask.submit_prog = Model.StateTask.submit_prog /\
-  Gen.StateTask.exec_prog = Model.StateTask.exec_prog /\
-  Gen.StateTask.collect_prog = Model.StateTask.collect_prog.
-Proof. repeat split; reflexivity. Qed.
+(* Agreement is agreement of BEHAVIOUR: for every task record, every pre-processor / node / post-processor
+   and every combination of the flags the source's programs and the model's end in the same way (fall
+   through / return / submit fails) in the same state with the same log of calls.  So a source that spells
+   a guard the other way round, merges or splits two tests, or moves the handler calls into helpers
+   (inlined by the extractor) still agrees; one that calls a handler on another value, drops its result,
+   or runs it when it must not does not. *)
+Ltac c11_task_agree :=
+  intros X has_pre skip has_post proc [i o e t ce calls];
+  unfold texec, Gen.StateTask.submit_prog, Gen.StateTask.exec_prog, Gen.StateTask.collect_prog,
+    Model.StateTask.submit_prog, Model.StateTask.exec_prog, Model.StateTask.collect_prog;
+  destruct has_pre, skip, has_post, e, ce; cbn;
+  repeat (match goal with |- context [proc ?p ?x] => destruct (proc p x) as [? []]; cbn end);
+  reflexivity.
+
+Lemma gen_submit_agrees : forall X has_pre skip has_post (proc : tproc -> X -> X * bool) st,
+  texec X has_pre skip has_post proc Gen.StateTask.submit_prog st =
+  texec X has_pre skip has_post proc Model.StateTask.submit_prog st.
+Proof. c11_task_agree. Qed.
+Lemma gen_exec_agrees : forall X has_pre skip has_post (proc : tproc -> X -> X * bool) st,
+  texec X has_pre skip has_post proc Gen.StateTask.exec_prog st =
+  texec X has_pre skip has_post proc Model.StateTask.exec_prog st.
+Proof. c11_task_agree. Qed.
+Lemma gen_collect_agrees : forall X has_pre skip has_post (proc : tproc -> X -> X * bool) st,
+  texec X has_pre skip has_post proc Gen.StateTask.collect_prog st =
+  texec X has_pre skip has_post proc Model.StateTask.collect_prog st.
+Proof. c11_task_agree. Qed.
+
+Theorem gen_task_programs_agree : forall X has_pre skip has_post (proc : tproc -> X -> X * bool) st,
+  texec X has_pre skip has_post proc Gen.StateTask.submit_prog st =
+    texec X has_pre skip has_post proc Model.StateTask.submit_prog st /\
+  texec X has_pre skip has_post proc Gen.StateTask.exec_prog st =
+    texec X has_pre skip has_post proc Model.StateTask.exec_prog st /\
+  texec X has_pre skip has_post proc Gen.StateTask.collect_prog st =
+    texec X has_pre skip has_post proc Model.StateTask.collect_prog st.
+Proof. intros; split; [apply gen_submit_agrees | split; [apply gen_exec_agrees | apply gen_collect_agrees]]. Qed.
 
 (* the pipeline, for the source's programs *)
 Definition gen_run_task (X : Type) (has_pre skip has_post : bool) (proc : tproc -> X -> X * bool) (x d : X) : tres X :=
@@ -48,9 +78,14 @@ Theorem gen_task_pipeline : forall (X : Type) has_pre skip has_post (proc : tpro
     else
       ts_out st = fst (proc TAction x1) /\ ts_err st = false /\ ts_calls st = pre_call ++ [(TAction, x1)].
 Proof.
-  intros X has_pre skip has_post proc x d. unfold gen_run_task.
-  destruct gen_task_programs_agree as (E1 & E2 & E3). rewrite E1, E2, E3.
-  exact (task_pipeline X has_pre skip has_post proc x d).
+  intros X has_pre skip has_post proc x d.
+  assert (E : gen_run_task X has_pre skip has_post proc x d = run_task X has_pre skip has_post proc x d).
+  { unfold gen_run_task, run_task. rewrite gen_submit_agrees.
+    destruct (texec X has_pre skip has_post proc submit_prog (mkTS x d false d false [])) as [st1|st1|st1];
+      try reflexivity; rewrite gen_exec_agrees;
+      destruct (texec X has_pre skip has_post proc exec_prog st1) as [st2|st2|st2];
+      try reflexivity; apply gen_collect_agrees. }
+  rewrite E. exact (task_pipeline X has_pre skip has_post proc x d).
 Qed.
 
 (* non-vacuity: handlers that add 1 / double / add 100 *)
